@@ -97,9 +97,21 @@ def shaped_files():
     for c in ('/* #1 */', '/* ; */', '/* ( */', "/* ' */", '/* #9=X(); */'):
         yield {'cls': 'comment-between-instances', 'detail': c, 'insts': [N(1), c, N(2, 1), c]}
         yield {'cls': 'comment-inside-instance', 'detail': c, 'insts': [N(1), '#2=NODE(%s#1,$,2);' % c, '#3=NODE($,$%s,3);' % c]}
+    # every instance with a comment of its own, in front of it or behind the '=': whichever instance a load pulls in on the way, each one shows its own
+    K = lambda i, where: ('/* about %d */ #%d=NODE' % (i, i)) if where == 'front' else ('#%d= /* about %d */ NODE' % (i, i))
+    for where in ('front', 'after-equals'):
+        for shape, refs in (('chain', {1: (2,), 2: (3,), 3: (4,), 4: ()}), ('backward-chain', {1: (), 2: (1,), 3: (2,), 4: (3,)}), ('diamond', {1: (2, 3), 2: (4,), 3: (4,), 4: ()}),
+                            ('fan', {1: (), 2: (1,), 3: (1, 2), 4: (3, 1)})):
+            yield {'cls': 'own-comment-per-instance', 'detail': '%s/%s' % (where, shape),
+                   'insts': ['%s(%s,%s,%d);' % (K(i, where), ref(r[0] if r else None), ref(r[1] if len(r) > 1 else None), i) for i, r in sorted(refs.items())]}
     for sp in ('#1 =NODE($,$,1);', '#1= NODE($,$,1);', '#1=NODE ($,$,1);', '#1=NODE( $ , $ , 1 ) ;', '#1\n=\nNODE($,\n$,1);', '#1=NODE\n($,$,1);', '#1=NODE\t($,$,1);',
                '#1=NODE\r\n($,$,1);', '#1=\nNODE($,$,1);'):
         yield {'cls': 'spacing', 'detail': sp.replace('\n', '\\n'), 'insts': [sp, N(2, 1)]}
+
+
+def comments_of(b):
+    """the Part 21 comments in a STEPwrite text, in order (outside strings)"""
+    return [m.group(1).strip() for m in re.finditer(rb"'(?:[^']|'')*'|/\*(.*?)\*/", b, re.S) if m.group(1) is not None]
 
 
 def nocomment(b):
@@ -249,6 +261,12 @@ def _run_file(case, lz):
                         why = 'reference-unresolved' if b'$' in txt and b'$' not in eager[step][1] else 'text'
                         viol.append(('load-serialisation/%s/%s' % (ctx, why), 'after loads %s, #%d serialises as %r, eagerly read %r' % (hist + [i], step, txt.decode('latin1').strip(), eager[step][1].decode('latin1').strip()),
                                      dict(case, history=hist + [i])))
+                        bad = True
+                        break
+                    if comments_of(txt) != comments_of(eager[step][1]) and comments_of(txt):
+                        # a comment may be lost on the way (not claimed); one that is SHOWN with an instance is a comment the eager reader shows with that instance
+                        viol.append(('load-serialisation/%s/comment-of-another-instance' % ctx, 'after loads %s, #%d carries the comment(s) %r, eagerly read %r' % (
+                            hist + [i], step, comments_of(txt), comments_of(eager[step][1])), dict(case, history=hist + [i])))
                         bad = True
                         break
                 if bad:
